@@ -95,10 +95,17 @@ fn inmem<IntT: for<'a> UInt<'a>>(k: usize, rc: bool, list: &str, op: &[String]) 
         "distance" => {
             generic_modes::distance(&mut arr, &None, op[1].parse().unwrap(), !b(&op[2]), 1)
         }
-        // weed FASTA REVERSE
+        // weed FASTA REVERSE [AMBIG_MISSING AMBIG_MASK FILTER]: the library calls `ska weed` is
+        // documented to make (weed, then the filters when any is requested; no frequency threshold)
         "weed" => {
             let r = RefSka::<IntT>::new(arr.kmer_len(), &op[1], arr.rc(), false, false);
             arr.weed(&r, b(&op[2]));
+            if op.len() >= 6 {
+                let (ambig_missing, ambig_mask, filter) = (b(&op[3]), b(&op[4]), parse_filter(&op[5]));
+                if filter != FilterType::NoFilter || ambig_mask {
+                    arr.filter(0, ambig_missing, &filter, ambig_mask, false, true);
+                }
+            }
             print_nk(&arr);
         }
         // emptied FASTA OUT: keep only the k-mers of FASTA (which match nothing), save the emptied
